@@ -256,6 +256,8 @@ func configs(tier string) []Config {
 		base = append(base,
 			Config{Name: "id7/default-names", StartID: 7, DefaultNI: server.DefaultNetworkInstanceName, VRF: "NON-DEFAULT-VRF"},
 			Config{Name: "id2^40/default-names", StartID: 1 << 40, DefaultNI: server.DefaultNetworkInstanceName, VRF: "NON-DEFAULT-VRF"},
+			// another name for the non-default instance (the reference server's default instance name is a constant)
+			Config{Name: "id1/vrf-x", StartID: 1, DefaultNI: server.DefaultNetworkInstanceName, VRF: "vrf-x"},
 		)
 	} else {
 		base = append(base, Config{Name: "id2^40/default-names", StartID: 1 << 40, DefaultNI: server.DefaultNetworkInstanceName, VRF: "NON-DEFAULT-VRF"})
